@@ -119,6 +119,13 @@ func init() {
 		body += "\n(* device_keystore_wrapper.go memberDeviceForGroup: group types served with the account key / with derived keys *)\n"
 		body += "Definition account_key_group_types : list string := " + coqStrList(acctTypes) + ".\n"
 		body += "Definition derived_key_group_types : list string := " + coqStrList(derivedTypes) + ".\n"
+		// api_multimember.go: the service methods check the invitation (GroupJoin of the account metadata
+		// store) BEFORE anything is written to the secret store
+		mm := parse("api_multimember.go")
+		keep := map[string]bool{"accountGroup.MetadataStore().GroupJoin": true, "s.secretStore.PutGroup": true}
+		body += "\n(* api_multimember.go: GroupJoin / PutGroup calls of the two service methods, in order, with whether a failure returns at once *)\n"
+		body += "Definition service_join_steps : list (string * bool) := " + coqPairs(guardedCalls(funcDecl(mm, "service", "MultiMemberGroupJoin")), keep) + ".\n"
+		body += "Definition service_create_steps : list (string * bool) := " + coqPairs(guardedCalls(funcDecl(mm, "service", "MultiMemberGroupCreate")), keep) + ".\n"
 		write("Join.v", body)
 	})
 }
